@@ -2,6 +2,7 @@ package main
 
 import (
 	"fmt"
+	"go/constant"
 	"go/token"
 	"go/types"
 	"sort"
@@ -344,4 +345,267 @@ func c13SnipWidth(c *Ctx, fn *ssa.Function, H *ssa.BasicBlock, kept *ssa.Phi, el
 	sort.Strings(missing)
 	c.check(len(missing) == 0, fname+"/snip-width", P.Pos(appendAt.Instrs[0].Pos()), fname, "what the ellipsis is appended under is known where the full-width last line is cut",
 		"the ellipsis is appended under a condition that the cut of a full-width last line does not know ("+strings.Join(missing, "; ")+"): the last line can end up one character wider than the width")
+}
+
+// pathContradicts: the branch facts of the path cannot all hold: a condition
+// that resolves, along the path, to a constant of the other truth, or the same
+// resolved condition taken both ways (a flag tested twice).
+func pathContradicts(lc *lcPath, facts []Fact) bool {
+	seen := map[ssa.Value]bool{}
+	for _, f := range facts {
+		v := lc.at(f.Cond)
+		if k, ok := v.(*ssa.Const); ok && k.Value != nil && k.Value.Kind() == constant.Bool {
+			if constant.BoolVal(k.Value) != f.Truth {
+				return true
+			}
+			continue
+		}
+		if t, had := seen[v]; had && t != f.Truth {
+			return true
+		}
+		seen[v] = f.Truth
+	}
+	return lc.infeasible()
+}
+
+// c13SnipSliced: Snip without a collecting loop — the kept lines are a slice
+// of the lines of the text (`lines[:height]`, `lines[:end]` with end counted
+// down from the length past the blank lines), the last kept line possibly
+// replaced by itself without its last character. Decided per return path:
+// the result is the kept lines joined by line feeds plus at most the
+// ellipsis; the kept lines are a prefix of the lines (every slice starts at 0
+// and ends within its operand, by the path's facts and the monotonicity of
+// counters); there are at most `height` of them; the only element ever
+// stored is the last kept one, with its own text or its text without the
+// tail; and where the ellipsis is appended behind a line, that line was
+// compared with the width and cut where it filled it.
+func c13SnipSliced(c *Ctx, fn *ssa.Function) {
+	P := c.P
+	fname := FuncName(fn)
+	pos := P.Pos(fn.Pos())
+	text, width, height, ellipsis := ssa.Value(fn.Params[0]), ssa.Value(fn.Params[1]), ssa.Value(fn.Params[2]), ssa.Value(fn.Params[3])
+	var lines ssa.Value
+	eachInstr(fn, func(_ *ssa.BasicBlock, _ int, in ssa.Instruction) {
+		if call, ok := in.(*ssa.Call); ok && isLibCall(&call.Call, "strings", "", "Split") {
+			if s, ok := constString(call.Call.Args[1]); ok && s == "\n" && unwrapLoad(call.Call.Args[0]) == text {
+				lines = call
+			}
+		}
+	})
+	if !c.check(lines != nil, fname+"/snip-lines", pos, fname, "the lines are strings.Split(text, \"\\n\")", "Snip does not take the lines of its own text parameter") {
+		return
+	}
+	var chain func(v ssa.Value, seen map[ssa.Value]bool) bool
+	chain = func(v ssa.Value, seen map[ssa.Value]bool) bool {
+		v = unwrapLoad(v)
+		if v == lines {
+			return true
+		}
+		if seen[v] {
+			return true
+		}
+		seen[v] = true
+		switch x := v.(type) {
+		case *ssa.Slice:
+			if x.Max != nil {
+				return false
+			}
+			if x.Low != nil {
+				if k, ok := constInt(x.Low); !ok || k != 0 {
+					return false
+				}
+			}
+			return chain(x.X, seen)
+		case *ssa.Phi:
+			for _, e := range x.Edges {
+				if !chain(e, seen) {
+					return false
+				}
+			}
+			return len(x.Edges) > 0
+		}
+		return false
+	}
+	isChain := func(v ssa.Value) bool { return chain(v, map[ssa.Value]bool{}) }
+	collapseFn := P.FuncOpt("servitor/ansi", "collapse")
+	// stores into the lines
+	elemOf := func(v ssa.Value) *ssa.IndexAddr {
+		ld, ok := unwrapLoad(v).(*ssa.UnOp)
+		if !ok || ld.Op != token.MUL {
+			return nil
+		}
+		ia, _ := ld.X.(*ssa.IndexAddr)
+		if ia == nil || !isChain(ia.X) {
+			return nil
+		}
+		return ia
+	}
+	sameElem := func(a, b *ssa.IndexAddr) bool {
+		return a != nil && b != nil && path(a.X) == path(b.X) && lin(a.Index).String() == lin(b.Index).String()
+	}
+	var stores []*ssa.Store
+	okStores, whyStore := true, ""
+	eachInstr(fn, func(_ *ssa.BasicBlock, _ int, in ssa.Instruction) {
+		st, ok := in.(*ssa.Store)
+		if !ok {
+			return
+		}
+		ia, ok := st.Addr.(*ssa.IndexAddr)
+		if !ok || !isChain(ia.X) {
+			return
+		}
+		stores = append(stores, st)
+		// the last element: len(X)-1
+		last := false
+		if b, ok := ia.Index.(*ssa.BinOp); ok && b.Op == token.SUB {
+			if k, isK := constInt(b.Y); isK && k == 1 {
+				if lc, ok := b.X.(*ssa.Call); ok {
+					if bi, ok := lc.Call.Value.(*ssa.Builtin); ok && bi.Name() == "len" && path(lc.Call.Args[0]) == path(ia.X) {
+						last = true
+					}
+				}
+			}
+		}
+		if !last {
+			okStores, whyStore = false, "a line other than the last kept one is overwritten at "+P.InstrPos(st)
+			return
+		}
+		var allowed func(v ssa.Value, d int) bool
+		allowed = func(v ssa.Value, d int) bool {
+			if d > 6 {
+				return false
+			}
+			if e := elemOf(v); e != nil {
+				return sameElem(e, ia)
+			}
+			switch x := unwrapLoad(v).(type) {
+			case *ssa.Phi:
+				for _, e := range x.Edges {
+					if !allowed(e, d+1) {
+						return false
+					}
+				}
+				return true
+			case *ssa.Call:
+				if collapseFn == nil || x.Call.StaticCallee() != collapseFn {
+					return false
+				}
+				m := unwrapLoad(x.Call.Args[0])
+				if sl, ok := m.(*ssa.Slice); ok {
+					if sl.Low != nil {
+						return false
+					}
+					m = unwrapLoad(sl.X)
+				}
+				ec, ok := m.(*ssa.Call)
+				if !ok || ec.Call.StaticCallee() == nil || ec.Call.StaticCallee().Name() != "expand" {
+					return false
+				}
+				return sameElem(elemOf(ec.Call.Args[0]), ia)
+			}
+			return false
+		}
+		if !allowed(st.Val, 0) {
+			okStores, whyStore = false, "the line stored at "+P.InstrPos(st)+" is not the last kept line itself or that line without its tail"
+		}
+	})
+	c.ok(fname+"/snip-loop", pos, fname, "no loop collects lines: the kept lines are a slice of the lines of the text")
+	c.check(okStores, fname+"/snip-state", pos, fname, fmt.Sprintf("%d stores into the lines, each of the last kept line with its own text or its text without the tail", len(stores)), whyStore)
+	// the comparison of the last kept line with the width
+	widthTest := func(f Fact) (isTest, fills bool) {
+		cmp, ok := f.Cmp()
+		if !ok || (cmp.Op != token.EQL && cmp.Op != token.NEQ) {
+			return false, false
+		}
+		for _, side := range [][2]ssa.Value{{cmp.X, cmp.Y}, {cmp.Y, cmp.X}} {
+			if unwrapLoad(side[1]) != width {
+				continue
+			}
+			lcall, ok := unwrapLoad(side[0]).(*ssa.Call)
+			if !ok {
+				continue
+			}
+			bi, ok := lcall.Call.Value.(*ssa.Builtin)
+			if !ok || bi.Name() != "len" {
+				continue
+			}
+			ec, ok := unwrapLoad(lcall.Call.Args[0]).(*ssa.Call)
+			if !ok || ec.Call.StaticCallee() == nil || ec.Call.StaticCallee().Name() != "expand" || elemOf(ec.Call.Args[0]) == nil {
+				continue
+			}
+			return true, cmp.Op == token.EQL
+		}
+		return false, false
+	}
+	complete := eachReturnPath(fn, func(ret *ssa.Return, pf pathFacts, k int) {
+		if len(ret.Results) != 1 {
+			return
+		}
+		lc := newLcPath(P, fn, pf)
+		lc.opaque = map[*ssa.BasicBlock]bool{}
+		for h := range loopHeads(fn) {
+			lc.opaque[h] = true
+		}
+		lc.assume(lc.num(height)) // for a negative height the function as pinned panics (make); the property speaks of heights that can be shown
+		lc.useFacts()
+		for h := range lc.opaque {
+			lc.assumeMonotone(h) // with the path's facts in place: what a counter starts from may rest on them
+		}
+		lc.problems = nil // bounds met while the hypotheses were still being collected are looked at again below
+		if pathContradicts(lc, pf.facts) {
+			return
+		}
+		where := "path through lines " + pathLines(P, pf)
+		r := lc.at(ret.Results[0])
+		withEllipsis := false
+		if b, ok := r.(*ssa.BinOp); ok && b.Op == token.ADD && unwrapLoad(b.Y) == ellipsis {
+			withEllipsis = true
+			r = lc.at(b.X)
+		}
+		if unwrapLoad(r) == ellipsis && !withEllipsis {
+			c.ok(fname+"/snip-result", P.InstrPos(ret), fname, "nothing is kept: the ellipsis alone ("+where+")")
+			return
+		}
+		jc, ok := r.(*ssa.Call)
+		var S ssa.Value
+		if ok && isLibCall(&jc.Call, "strings", "", "Join") {
+			if s, isS := constString(jc.Call.Args[1]); isS && s == "\n" {
+				S = lc.at(jc.Call.Args[0])
+			}
+		}
+		if !c.check(S != nil && isChain(S), fname+"/snip-result", P.InstrPos(ret), fname, "a slice of the lines of the text that starts at the first, joined with line feeds, plus possibly the ellipsis ("+where+")",
+			"Snip returns something else than a leading slice of the lines of the text joined with line feeds and, at most, the ellipsis behind them ("+where+")") {
+			return
+		}
+		n, _ := lc.sliceInfo(S)
+		bound := len(lc.problems) == 0 && lc.nonNeg(lc.num(height).add(n, -1))
+		why := "more than `height` lines can be returned: the number of kept lines, " + n.String() + ", is not known to be at most height (" + where + ")"
+		if len(lc.problems) > 0 {
+			why = lc.problems[0] + " (" + where + ")"
+		}
+		c.check(bound, fname+"/snip-bound", P.InstrPos(ret), fname, "at most height lines: "+n.String()+" <= height, every slice within its operand ("+where+")", why)
+		if !withEllipsis || lc.nonNeg(newLin().add(n, -1)) {
+			return // no ellipsis, or no line in front of it
+		}
+		tested, fills := false, false
+		for _, f := range pf.facts {
+			if is, eq := widthTest(f); is {
+				tested = true
+				if eq {
+					fills = true
+				}
+			}
+		}
+		cut := false
+		for _, st := range stores {
+			for _, b := range pf.blocks {
+				if st.Block() == b {
+					cut = true
+				}
+			}
+		}
+		c.check(tested && (!fills || cut), fname+"/snip-width", P.InstrPos(ret), fname, "the ellipsis follows a line that was compared with the width, and cut where it filled it ("+where+")",
+			"the ellipsis is appended behind the last kept line without that line having been compared with the width (or without its last character having been removed where it fills the width): the line becomes one character wider than the width ("+where+")")
+	})
+	c.check(complete, fname+"/snip-paths", pos, fname, "every path to a return enumerated", "too many paths through Snip to enumerate")
 }
